@@ -153,6 +153,12 @@ def sx_str(x='', *args):
     f = getattr(x, '__sx_str__', None)
     if f is not None:
         return f()
+    if type(x).__name__ == 'SymBytes':
+        from . import chars
+        for v in x.items():
+            if not isinstance(v, int) and not (v < 128):
+                raise Unsupported('decoding symbolic non-ASCII bytes')
+        return chars.mk(x.items())
     return str(x, *args)
 
 
